@@ -25,7 +25,7 @@ NOT_DECIDED = ("Allocation behaviour inside rmp-serde / serde (dependency) on de
 
 
 def check(run):
-    for cfg in ("A", "B", "C"):
+    for cfg in run.cfgs("A", "B", "C"):
         F = run.facts(cfg)
         run.guard("C10.1.load-cone-totality", cfg, lambda: a7.check_cone(
             run, "C10.1.load-cone-totality", F, cfg, a7_cones.LOAD_ROOTS, a7_common.rows(),
